@@ -1,7 +1,7 @@
 package dnsmsg
 
 import (
-	"sync"
+	"github.com/IrineSistiana/mosproxy/internal/pool"
 )
 
 type Question struct {
@@ -63,7 +63,7 @@ func unpackQuestion(msg []byte, off int) (*Question, int, error) {
 	return q, off, nil
 }
 
-var qsPool = sync.Pool{
+var qsPool = pool.ObjPool{
 	New: func() any {
 		return new(Question)
 	},
